@@ -11,26 +11,17 @@
   two ends in the other order and `G = G0.reverse` (the pair is traversed in reverse).  `G = []` is the gapless case of
   `remap_adjacent_only_from_input`, so G2 below subsumes the first clause.
 
-  PROVED (hypotheses: input Fragment objects pairwise distinct, `joinGap = some g`, `remap … = .ok (outs, stats)`):
+  PROVED (hypotheses: input Fragment objects pairwise distinct, `joinGap = some g`, `remap … = .ok (outs, stats)`), for ALL
+  Pretext files — no side condition on the map (model after fix 9be92a2 in /repo):
     G1 `remap_gap_rows_from_input_or_join`   every gap row of every output scaffold is the join gap `g` or a gap row of an
                                              input scaffold.                                              FULL STRENGTH
-    G2 `remap_gap_runs_general`              every run `(a, G, b)` of every output scaffold: `G = [g]`, or `InputRun`, or the
-                                             FALL-BACK rule of `add_missing_scaffolds_from_input` (`a`, `b` left-over contigs of
-                                             one input scaffold with a FOUND contig between them; `G = [x]`, `x` the gap row
-                                             directly in front of `b` in the input).                      FULL STRENGTH
-       `remap_gap_runs`                      G2 as asked — `G = [g] ∨ InputRun input (a, G, b)` — under the explicit, decidable
-                                             hypothesis that in no input scaffold a found contig lies between two left-over
-                                             contigs (`MissingContiguous`, w.r.t. the registry of the build that
-                                             `remap_to_input_assembly` returns; checkable by evaluation: `leftoversContiguous`).
-  FALSE of the model (FINDING): G2 without that hypothesis,
-       ∀ input ptx prefix g err outs stats, distinct oids → remap input ptx prefix (some g) err = .ok (outs, stats) →
-         ∀ a ∈ outs, ∀ s ∈ a.scaffolds, ∀ t ∈ gapRuns s.rows, t.2.1 = [g] ∨ InputRun input t
-    — `remap_gap_runs_unrestricted_false`, counter-example through the whole of `remap`:
-       input  S = a:1-10(+)  gap(5,u)  b:1-10(+)  gap(7,v)  c:1-10(+);   Pretext map: one scaffold P1 = S:16-25 (only b).
-       output [b]  and the left-over scaffold  [a, gap(7,v), c]:  a and c were not neighbours in the input, the junction
-       does not use the join gap, and gap(7,v) separated b and c, not a and c.
-    (PretextView itself never paints the middle of a scaffold without its flanks, so for its maps `MissingContiguous` holds:
-     left-over contigs are whole scaffolds or the trailing contigs inside the final partial texel.)
+    G2 `remap_gap_runs`                      every run `(a, G, b)` of every output scaffold: `G = [g]`, or `InputRun input (a, G, b)`
+                                             (the same two facing contig ends are consecutive in one input scaffold and `G` is
+                                             exactly the gap rows the input has between them).            FULL STRENGTH
+       `remap_non_neighbours_join_gap`       a junction between contigs that were not neighbours in the input carries exactly `[g]`.
+  HISTORY: before fix 9be92a2 G2 was FALSE of model and code for maps that left two contigs over on both sides of a placed
+  one (`a g5 b g7 c`, only `b` painted, gave `a g7 c`); that theorem (`remap_gap_runs_unrestricted_false`) was the finding
+  the proof work produced; the repaired behaviour is `former_counterexample_uses_join_gap` below.
 -/
 import AgpTpf.Proofs.C07GapC
 namespace AgpTpf.C07
@@ -67,27 +58,6 @@ theorem inputRun_iff (input : List Scaffold) (a b : Fragment) (G : List Gap) :
     · exact Or.inl ⟨by simp [e1, e2], e3⟩
     · exact Or.inr ⟨by simp [Prod.swap, e1, e2], e3⟩
 
-/-- `MissingContiguous found rows`: no registered (found) contig lies between two left-over contigs of `rows` -/
-theorem missing_contiguous_iff (found : List (Key × Found)) (rows : List Row) :
-    MissingContiguous found rows ↔
-      ∀ i k j, i < k → k < j → j < rows.length →
-        rowMissing found rows[i]? = true → rowMissing found rows[j]? = true → rowFound found rows[k]? = false :=
-  missingContiguous_iff found rows
-
-/-- the hypothesis of `remap_gap_runs`, as a check that can be evaluated -/
-def leftoversContiguous (input ptx : List Scaffold) (prefix_ : Str) (g : Gap) (err : Int) : Bool :=
-  match remapToInput input ptx prefix_ (some g) err with
-  | .ok b => decide (∀ sc ∈ input, MissingContiguous b.found sc.rows)
-  | .error _ => true
-
-theorem leftoversContiguous_spec (input ptx : List Scaffold) (prefix_ : Str) (g : Gap) (err : Int)
-    (h : leftoversContiguous input ptx prefix_ g err = true) :
-    ∀ b, remapToInput input ptx prefix_ (some g) err = .ok b → ∀ sc ∈ input, MissingContiguous b.found sc.rows := by
-  intro b hb
-  unfold leftoversContiguous at h
-  rw [hb] at h
-  simpa using h
-
 /-! ## G1 -/
 
 /-- G1: whenever `remap` completes (join gap `g` configured, distinct input Fragment objects), every gap row of every
@@ -112,26 +82,20 @@ theorem remap_gap_rows_from_input_or_join (input ptx : List Scaffold) (prefix_ :
 
 /-! ## G2 -/
 
-/-- G2, general form, true for ALL inputs and Pretext files: every run `(a, G, b)` of every output scaffold
-    * carries exactly the join gap, `G = [g]`, or
-    * is an input run: `a`, `b` are (by their facing ends) consecutive contigs of one input scaffold and `G` is exactly
-      the gap rows the input has between them (reversed if the pair is traversed in reverse), or
-    * comes from the fall-back rule for left-over contigs (see `FallBackRun`): the only way a gap row can end up between
-      two contigs it did not separate in the input.
-    `b` is the build returned by `remap_to_input_assembly`; only its registry `found` is used. -/
-theorem remap_gap_runs_general (input ptx : List Scaffold) (prefix_ : Str) (g : Gap) (err : Int)
+/-- G2, for ALL inputs and Pretext files: for every maximal run of gap rows `G` between two consecutive fragments `a`, `b`
+    of an output scaffold: either `G = [g]` (the join gap), or the facing ends of `a` and `b` are the facing ends of two
+    consecutive fragments of one input scaffold and `G` is exactly the gap rows the input has between them (in reverse
+    order if the pair is traversed in reverse). -/
+theorem remap_gap_runs (input ptx : List Scaffold) (prefix_ : Str) (g : Gap) (err : Int)
     (outs : List OutAsm) (stats : Stats)
     (hnd : ((input.flatMap Scaffold.fragments).map (·.oid)).Nodup)
     (h : remap input ptx prefix_ (some g) err = .ok (outs, stats)) :
-    ∃ b, remapToInput input ptx prefix_ (some g) err = .ok b ∧
-      ∀ a ∈ outs, ∀ s ∈ a.scaffolds, ∀ t ∈ gapRuns s.rows,
-        t.2.1 = [g] ∨ InputRun input t ∨ ∃ sc ∈ input, FallBackRun b.found sc.rows t := by
+    ∀ a ∈ outs, ∀ s ∈ a.scaffolds, ∀ t ∈ gapRuns s.rows, t.2.1 = [g] ∨ InputRun input t := by
   unfold remap at h
   simp only [bind, Except.bind] at h
   split at h
   · cases h
   · next b hb =>
-    refine ⟨b, hb, ?_⟩
     obtain ⟨hc, _⟩ := remapToInput_cinv input ptx prefix_ (some g) err b hnd hb
     have hex := remapToInput_extraGaps input ptx prefix_ (some g) err b hb
     have hntg := remapToInput_ntg input ptx prefix_ (some g) err b hb
@@ -142,36 +106,15 @@ theorem remap_gap_runs_general (input ptx : List Scaffold) (prefix_ : Str) (g : 
     · rw [e] at ht
       exact fused_gap_runs input _ g b hc hex hntg hstr s0 hs0 t ht
 
-/-- G2: if in no input scaffold a found contig lies between two left-over contigs (explicit hypothesis `hcont`; it
-    holds e.g. when the left-over contigs of every scaffold are a trailing run or the whole scaffold), then for every
-    maximal run of gap rows `G` between two consecutive fragments `a`, `b` of an output scaffold: either `G = [g]` (the
-    join gap), or the facing ends of `a` and `b` are the facing ends of two consecutive fragments of one input scaffold and
-    `G` is exactly the gap rows the input has between them (in reverse order if the pair is traversed in reverse).
-    In particular a junction between contigs that were NOT neighbours in the input carries exactly the join gap.
-    (The statement without `hcont` is false: `remap_gap_runs_unrestricted_false`.) -/
-theorem remap_gap_runs (input ptx : List Scaffold) (prefix_ : Str) (g : Gap) (err : Int)
-    (outs : List OutAsm) (stats : Stats)
-    (hnd : ((input.flatMap Scaffold.fragments).map (·.oid)).Nodup)
-    (hcont : ∀ b, remapToInput input ptx prefix_ (some g) err = .ok b → ∀ sc ∈ input, MissingContiguous b.found sc.rows)
-    (h : remap input ptx prefix_ (some g) err = .ok (outs, stats)) :
-    ∀ a ∈ outs, ∀ s ∈ a.scaffolds, ∀ t ∈ gapRuns s.rows, t.2.1 = [g] ∨ InputRun input t := by
-  obtain ⟨b, hb, hall⟩ := remap_gap_runs_general input ptx prefix_ g err outs stats hnd h
-  intro a ha s hs t ht
-  rcases hall a ha s hs t ht with h1 | h2 | ⟨sc, hsc, h3⟩
-  · exact Or.inl h1
-  · exact Or.inr h2
-  · exact absurd h3 (not_fallBack_of_contiguous _ _ _ (hcont b hb sc hsc))
-
 /-- corollary ("a junction between contigs that were not neighbours in the input always uses the join gap"):
-    under the hypotheses of `remap_gap_runs`, a run whose two fragments are not an input run carries exactly `[g]` -/
+    a run whose two fragments are not an input run carries exactly `[g]` -/
 theorem remap_non_neighbours_join_gap (input ptx : List Scaffold) (prefix_ : Str) (g : Gap) (err : Int)
     (outs : List OutAsm) (stats : Stats)
     (hnd : ((input.flatMap Scaffold.fragments).map (·.oid)).Nodup)
-    (hcont : ∀ b, remapToInput input ptx prefix_ (some g) err = .ok b → ∀ sc ∈ input, MissingContiguous b.found sc.rows)
     (h : remap input ptx prefix_ (some g) err = .ok (outs, stats)) :
     ∀ a ∈ outs, ∀ s ∈ a.scaffolds, ∀ x y G, (x, G, y) ∈ gapRuns s.rows → ¬ InputRun input (x, G, y) → G = [g] := by
   intro a ha s hs x y G ht hn
-  rcases remap_gap_runs input ptx prefix_ g err outs stats hnd hcont h a ha s hs _ ht with h1 | h2
+  rcases remap_gap_runs input ptx prefix_ g err outs stats hnd h a ha s hs _ ht with h1 | h2
   · exact h1
   · exact absurd h2 hn
 
@@ -203,11 +146,6 @@ example : (remap [inS, inT] [ptxA] [] (some jg) 1).toOption.map (fun r => r.1.ma
     some [[[.frag c2m, .gap gv, .gap gu, .frag c1m, .gap jg, .frag c4], [.frag c3]]] := by decide +kernel
 example : (remap [inS, inT] [ptxB] [] (some jg) 1).toOption.map (fun r => r.1.map (fun a => a.scaffolds.map (·.rows))) =
     some [[[.frag c1, .gap gu, .gap gv, .frag c2, .gap gw, .frag c3], [.frag c4]]] := by decide +kernel
-/-- the hypothesis of `remap_gap_runs` holds on both maps -/
-example : leftoversContiguous [inS, inT] [ptxA] [] jg 1 = true ∧ leftoversContiguous [inS, inT] [ptxB] [] jg 1 = true := by
-  decide +kernel
-example : ∀ b, remapToInput [inS, inT] [ptxA] [] (some jg) 1 = .ok b → ∀ sc ∈ [inS, inT], MissingContiguous b.found sc.rows :=
-  leftoversContiguous_spec _ _ _ _ _ (by decide +kernel)
 /-- the runs of the first output: the input run (a, [u, v], b) read in reverse, and a join between non-neighbours -/
 example : gapRuns [.frag c2m, .gap gv, .gap gu, .frag c1m, .gap jg, .frag c4] = [(c2m, [gv, gu], c1m), (c1m, [jg], c4)] ∧
     gapRuns inS.rows = [(c1, [gu, gv], c2), (c2, [gw], c3)] ∧
@@ -216,47 +154,19 @@ example : gapRuns [.frag c2m, .gap gv, .gap gu, .frag c1m, .gap jg, .frag c4] = 
 /-- every gap row of the outputs is the join gap or an input gap row -/
 example : ∀ x ∈ [gv, gu, jg, gw], x = jg ∨ ∃ sc ∈ [inS, inT], Row.gap x ∈ sc.rows := by decide
 
-/-! ## the counter-example: G2 without `hcont` is false of the model -/
+/-! ## the former counter-example (before fix 9be92a2 the left-over scaffold was `a, gap v, c`) -/
 
 private def inX : Scaffold := { name := ['S'], rows := [.frag c1, .gap gu, .frag c2, .gap gv, .frag c3] }
 /-- the map paints only b (S:16-25): a and c are left over on both sides of a found contig -/
 private def ptxX : Scaffold :=
   { name := ['P','1'], rows := [.frag { oid := 10, name := ['S'], start := 16, stop := 25, strand := 1, tags := [sPainted] }] }
 
-/-- through the whole of `remap`: the left-over scaffold is `a, gap v, c` -/
-theorem counterexample_rows :
+/-- through the whole of `remap`: a and c, which were not neighbours, are joined by the join gap -/
+theorem former_counterexample_uses_join_gap :
     (remap [inX] [ptxX] [] (some jg) 1).toOption.map (fun r => r.1.map (fun a => a.scaffolds.map (·.rows))) =
-      some [[[.frag c2], [.frag c1, .gap gv, .frag c3]]] := by decide +kernel
+      some [[[.frag c2], [.frag c1, .gap jg, .frag c3]]] := by decide +kernel
 
-/-- … `gap v` is neither the join gap nor what the input has between a and c (they are not neighbours) -/
-theorem counterexample_run : (c1, [gv], c3) ∈ gapRuns [.frag c1, .gap gv, .frag c3] ∧ [gv] ≠ [jg] ∧
-    ¬ InputRun [inX] (c1, [gv], c3) ∧ gapRuns inX.rows = [(c1, [gu], c2), (c2, [gv], c3)] := by decide
-
-/-- … and the hypothesis of `remap_gap_runs` indeed fails there -/
-example : leftoversContiguous [inX] [ptxX] [] jg 1 = false := by decide +kernel
-
-/-- FINDING: G2 as stated without the hypothesis on the left-overs is FALSE of the model. -/
-theorem remap_gap_runs_unrestricted_false :
-    ¬ (∀ (input ptx : List Scaffold) (prefix_ : Str) (g : Gap) (err : Int) (outs : List OutAsm) (stats : Stats),
-        ((input.flatMap Scaffold.fragments).map (·.oid)).Nodup →
-        remap input ptx prefix_ (some g) err = .ok (outs, stats) →
-        ∀ a ∈ outs, ∀ s ∈ a.scaffolds, ∀ t ∈ gapRuns s.rows, t.2.1 = [g] ∨ InputRun input t) := by
-  intro H
-  have hrows := counterexample_rows
-  cases hr : remap [inX] [ptxX] [] (some jg) 1 with
-  | error e => rw [hr] at hrows; simp [Except.toOption] at hrows
-  | ok r =>
-    obtain ⟨outs, stats⟩ := r
-    rw [hr] at hrows
-    simp only [Except.toOption, Option.map_some, Option.some.injEq] at hrows
-    have h1 : [[Row.frag c2], [.frag c1, .gap gv, .frag c3]] ∈ outs.map (fun a => a.scaffolds.map (·.rows)) := by
-      rw [hrows]; simp
-    obtain ⟨o, ho, e1⟩ := List.mem_map.mp h1
-    have h2 : [Row.frag c1, .gap gv, .frag c3] ∈ o.scaffolds.map (·.rows) := by rw [e1]; simp
-    obtain ⟨s, hs, e2⟩ := List.mem_map.mp h2
-    have hrun : (c1, [gv], c3) ∈ gapRuns s.rows := by rw [e2]; exact counterexample_run.1
-    rcases H [inX] [ptxX] [] jg 1 outs stats (by decide) hr o ho s hs _ hrun with h | h
-    · exact counterexample_run.2.1 h
-    · exact counterexample_run.2.2.1 h
+example : gapRuns [.frag c1, .gap jg, .frag c3] = [(c1, [jg], c3)] ∧ ¬ InputRun [inX] (c1, [jg], c3) ∧
+    gapRuns inX.rows = [(c1, [gu], c2), (c2, [gv], c3)] := by decide
 
 end AgpTpf.C07
